@@ -115,7 +115,7 @@ def replay(tid, beh, rng):
                         if ps["n"] >= 2:
                             hh[0], hh[-1] = pv / 2, min(1.0, pv + 0.25)
                         hists.append(hh)
-                        a.test.ret = (float(core.fr(ps["p"])), hh)
+                        a.test.ret = ((np.float64(pv) if (len(hists) + step) % 2 else float(pv)), hh)
                         a.test.seen = None
                     ret = Assertion.set_p_values(contests, mvrs, None)
                     e["post"] = project({"ret": rs(ret),
